@@ -343,6 +343,39 @@ def _lam_ret(ctx: Ctx, q: str):
     return f, c[0][1]
 
 
+def _construction_suffix(ctx: Ctx, decomposed: bool) -> str:
+    """the helper functions of the two diagram constructions have the same names; which set belongs to the
+    coefficient-decomposition variant is decided by the arm of the test on ``coefficientdecomposition`` that defines
+    them, not by their order in the file"""
+    fg = ctx.func(PB, "Ineq.getrobdd")
+    found = {}
+
+    def rec(stmts, pol):
+        for st in stmts:
+            if isinstance(st, ast.If):
+                t, neg = st.test, False
+                while isinstance(t, ast.UnaryOp) and isinstance(t.op, ast.Not):
+                    t, neg = t.operand, not neg
+                if isinstance(t, ast.Name) and t.id == "coefficientdecomposition":
+                    rec(st.body, not neg)
+                    rec(st.orelse, neg)
+                else:
+                    rec(st.body, pol)
+                    rec(st.orelse, pol)
+            elif isinstance(st, ast.FunctionDef) and st.name == "ifprop" and pol is not None:
+                found[pol] = st
+            elif isinstance(st, (ast.For, ast.While, ast.With, ast.Try)):
+                rec(getattr(st, "body", []), pol)
+    rec(fg.node.body, None)
+    if set(found) != {True, False}:
+        raise AnalysisError("Ineq.getrobdd: the two diagram constructions (with / without coefficient decomposition) were not found")
+    for suf in ("", "#2"):
+        cand = ctx.model.func(PB, "Ineq.getrobdd.<locals>.ifprop" + suf)
+        if cand is not None and cand.node is found[decomposed]:
+            return suf
+    raise AnalysisError("Ineq.getrobdd: nested helper not indexed")
+
+
 @rule("C07", "R8.diagram-construction", "LAW",
       "ROBDD construction for sum(c_i l_i) >= b: false leaf iff the remaining maximum sum < b, true leaf iff b <= 0; the "
       "else-propagation is the if-propagation with the literal's polarity exchanged (both constructions); terms are "
@@ -351,7 +384,8 @@ def r8(ctx: Ctx) -> None:
     x = ("p", 0)
     terms, bound = ("s", x, k_num(0)), ("s", x, k_num(1))
     head = ("s", terms, k_num(0))
-    for suffix, decomposed in [("", False), ("#2", True)]:
+    for decomposed in (False, True):
+        suffix = _construction_suffix(ctx, decomposed)
         f, cond = _lam_ret(ctx, "Ineq.getrobdd.<locals>.bccond" + suffix)
         ctx.site(f.where, "leaf test: maxsum(terms) < bound or bound <= 0")
         want = mk_or([mk_lt(("c", ("g", "maxsum"), (terms,), ()), bound), mk_not(mk_lt(k_num(0), bound))])
